@@ -166,6 +166,16 @@ def affine(t, x):
                 return None
             digits = t[2][1][1]
         return (inner[0], inner[1], digits)
+    if k == 'call' and t[1] == ('name', 'int') and len(t[2]) == 1:
+        inner = affine(t[2][0], x)
+        if inner is None:
+            return None
+        return (inner[0], inner[1], 'int-truncation')
+    if k == 'call' and t[1] in (('attr', ('name', 'math'), 'floor'), ('attr', ('name', 'math'), 'trunc'), ('attr', ('name', 'math'), 'ceil')) and len(t[2]) == 1:
+        inner = affine(t[2][0], x)
+        if inner is None:
+            return None
+        return (inner[0], inner[1], t[1][2])
     if k == 'call' and t[1] == ('attr', ('name', 'math'), 'degrees') and len(t[2]) == 1:
         inner = affine(t[2][0], x)
         if inner is None:
@@ -272,6 +282,9 @@ def unit_rules(chk, program):
         rel = lambda x, y: abs(x - y) <= 1e-3 * max(abs(y), 1e-12) if y != 0 else abs(x) < 1e-9
         chk.check(rel(info['a'], a) and (abs(info['b'] - b) < 5e-3), 'UNIT-AFFINE', f"{inst}::{v[1][1]}", file=UT, line=info['line'], func=v[1][1],
                   expected={'what': what, 'slope': a, 'intercept': b}, found={'slope': info['a'], 'intercept': info['b'], 'round_digits': info['digits'], 'term': info['term']})
+        chk.check(info['digits'] is None or isinstance(info['digits'], int), 'UNIT-AFFINE', f"{inst}::{v[1][1]}::rounding", file=UT, line=info['line'], func=v[1][1],
+                  expected='round(., k) (to nearest) or no rounding', found=info['digits'],
+                  detail='int()/floor truncation is not rounding: e.g. negative angles come out one unit off')
         chk.check(info['none_to_none'], 'UNIT-AFFINE', f"{inst}::{v[1][1]}::absent-stays-absent", file=UT, line=info['line'], func=v[1][1], expected='None -> None first', found=info['none_to_none'])
     # decoder lower-cases preferences
     init = program.fn('decoder', 'NMEA2000Decoder.__init__')
